@@ -173,9 +173,11 @@ pub struct Gen<'a> {
 
 const UINTS: [u64; 19] = [0, 1, 23, 24, 255, 256, 65535, 65536, 0x8000_0000, 0xC000_0000, 0xffff_ff00, 0xffff_ffff, 0x1_0000_0000, 1 << 53, i64::MAX as u64, 1 << 63, (1 << 63) + 2048, u64::MAX - 1, u64::MAX];
 const NINTS: [u64; 9] = [0, 23, 24, 255, 256, 65535, 65536, 0x8000_0000, i64::MAX as u64];
-const FLOATS: [f64; 16] = [
+const FLOATS: [f64; 24] = [
     1.5, -1.5, 0.1, 1.1, 65504.0 + 0.5, 5.960464477539063e-8, 3.4028234663852886e38, 1.0e300, -1.0e300, f64::INFINITY, f64::NEG_INFINITY, f64::NAN, 2.5, 1.0e-10, 100000.25,
     0.333251953125,
+    // integral values (the same leaf as the integer), also beyond 32 bits and exactly representable in single precision
+    2.0, -3.0, -0.0, 65536.0, 4294967296.0, -4294967296.0, 30000001024.0, 9.223372036854776e18,
 ];
 // (the last five are NOT in NFC: dCBOR requires the encoder to normalise them)
 const TEXTS: [&str; 15] = [
@@ -419,17 +421,82 @@ pub enum Route {
 pub const API_ROUTES: [Route; 4] = [Route::Plain, Route::Shuffled, Route::ReplaceSubject, Route::Detour];
 
 pub fn build_leaf(item: &Item, rng: &mut Rng) -> Envelope {
-    // typed constructors where one exists, else through CBOR
-    if rng.chance(1, 2) {
+    // typed constructors where one exists (every integer and float width the value fits, the library's
+    // value types for tagged leaves), else through CBOR
+    if rng.chance(2, 3) {
         match item {
             Item::Text(s) => return if rng.chance(1, 2) { Envelope::new(s.as_str()) } else { Envelope::new(s.clone()) },
-            Item::UInt(n) => return Envelope::new(*n),
-            Item::NInt(n) if *n < i64::MAX as u64 => return Envelope::new(-1i64 - (*n as i64)),
+            Item::UInt(n) => {
+                let n = *n;
+                return match rng.below(6) {
+                    0 if n <= u8::MAX as u64 => Envelope::new(n as u8),
+                    1 if n <= u16::MAX as u64 => Envelope::new(n as u16),
+                    2 if n <= u32::MAX as u64 => Envelope::new(n as u32),
+                    3 => Envelope::new(n as usize),
+                    4 if n <= i64::MAX as u64 => match rng.below(4) {
+                        0 if n <= i8::MAX as u64 => Envelope::new(n as i8),
+                        1 if n <= i16::MAX as u64 => Envelope::new(n as i16),
+                        2 if n <= i32::MAX as u64 => Envelope::new(n as i32),
+                        _ => Envelope::new(n as i64),
+                    },
+                    // an integral value given as a float is the same leaf (numeric reduction)
+                    5 if (n as f64) as u128 == n as u128 => {
+                        let f = n as f64;
+                        if ((f as f32) as f64) == f && rng.chance(1, 2) { Envelope::new(f as f32) } else { Envelope::new(f) }
+                    }
+                    _ => Envelope::new(n),
+                };
+            }
+            Item::NInt(n) if *n < i64::MAX as u64 => {
+                let v = -1i64 - (*n as i64);
+                return match rng.below(5) {
+                    0 if v >= i8::MIN as i64 => Envelope::new(v as i8),
+                    1 if v >= i16::MIN as i64 => Envelope::new(v as i16),
+                    2 if v >= i32::MIN as i64 => Envelope::new(v as i32),
+                    3 if (v as f64) as i128 == v as i128 => {
+                        let f = v as f64;
+                        if ((f as f32) as f64) == f && rng.chance(1, 2) { Envelope::new(f as f32) } else { Envelope::new(f) }
+                    }
+                    _ => Envelope::new(v),
+                };
+            }
             Item::Simple(20) => return Envelope::new(false),
             Item::Simple(21) => return Envelope::new(true),
             Item::Simple(22) => return Envelope::null(),
-            Item::Float(f) => return Envelope::new(*f),
+            Item::Float(f) => return if ((*f as f32) as f64) == *f && rng.chance(1, 2) { Envelope::new(*f as f32) } else { Envelope::new(*f) },
             Item::Bytes(b) => return Envelope::new(dcbor::ByteString::from(b.clone())),
+            Item::Tag(..) => {
+                // the library's own value types, when the leaf is one of their encodings
+                let cbor = item_to_cbor(item);
+                let want = cbor.to_cbor_data();
+                macro_rules! via {
+                    ($t:ty) => {
+                        if let Ok(v) = <$t>::try_from(cbor.clone()) {
+                            // (only when the type's own encoding is this leaf: e.g. a date given as an integer)
+                            if CBOR::from(v.clone()).to_cbor_data() == want {
+                                return Envelope::new(v);
+                            }
+                        }
+                    };
+                }
+                // (dates only within chrono's range: dcbor's own Date conversion panics outside it, finding D14)
+                if let Item::Tag(1, inner) = item {
+                    let t = match **inner {
+                        Item::UInt(n) => n as f64,
+                        Item::NInt(n) => -1.0 - n as f64,
+                        Item::Float(f) => f,
+                        _ => f64::NAN,
+                    };
+                    if t.is_finite() && t.abs() < 1.0e11 {
+                        via!(dcbor::Date);
+                    }
+                }
+                via!(Digest);
+                via!(bc_components::ARID);
+                via!(bc_components::UUID);
+                via!(bc_components::URI);
+                via!(bc_components::Salt);
+            }
             _ => {}
         }
     }
